@@ -171,3 +171,43 @@ def capacity_projection(trace, job):
         if i0 < len(obs) and i1 < len(obs):
             ev.append({"e": "fill", "c": c, "fresh": fresh, "len0": _tab(obs[i0])[0], "len1": _tab(obs[i1])[0]})
     return {"id": trace["id"], "ev": ev}
+
+
+SITE = {1: "start", 2: "join", 3: "leave", 4: "mig", 5: "pub", 6: "init"}
+
+
+def resize_projection(trace, job):
+    """resize site events (tables renamed to 1,2,.. in order of first appearance) + quiescent end
+    -> Trace_Resize input"""
+    names = {}
+
+    def tid(a):
+        if a not in names:
+            names[a] = len(names) + 1
+        return names[a]
+    ev = []
+    panics = 0
+    for e in trace["ev"]:
+        k = e.get("e")
+        if k == "site" and e["s"] in SITE:
+            s = SITE[e["s"]]
+            if s == "init":
+                ev.append({"e": "init", "tab": tid(e["a"]), "n": e["b"]})
+            elif s == "start":
+                ev.append({"e": "start", "tab": tid(e["a"]), "n": e["b"]})
+            elif s == "join":
+                ev.append({"e": "join", "tab": tid(e["a"])})
+            elif s == "leave":
+                ev.append({"e": "leave", "tab": tid(e["a"]), "fin": e["b"]})
+            elif s == "mig":
+                ev.append({"e": "mig", "tab": tid(e["a"]), "i": e["b"]})
+            elif s == "pub":
+                ev.append({"e": "pub", "old": tid(e["a"]), "new": tid(e["b"]), "n": e["c"]})
+        elif k == "thread_panic" or (k == "ret" and e.get("panic")):
+            panics += 1
+        elif k == "quiescent":
+            sn = e["o"].get("snap") or {}
+            tabs = sn.get("tables") or []
+            ev.append({"e": "end", "len": tabs[0]["len"] if tabs else 0, "sc": sn.get("sc", 0), "nt": sn.get("next_table", 0),
+                       "dropok": 1 if trace.get("end", {}).get("drop_ok") else 0, "panics": panics})
+    return {"id": trace["id"], "ev": ev}
